@@ -209,6 +209,20 @@ def main():
     got = run(o, R(0))
     if got != "AMBIGUOUS":
         failing.append(dict(name="dependent_above_tie", n_violations=1, violations=[dict(case="dependent condition false above a tied rank", got=got, expected="AMBIGUOUS")]))
+    # f.next inside a method with self (known finding F-nextself: the instance is not threaded through next)
+    from ovld import OvldBase
+
+    class K(OvldBase):
+        def f(self, x: int):
+            return ["int"] + self.f.next(x)
+
+        def f(self, x: object):
+            return ["obj"]
+
+    n += 1
+    got = run(K().f, 1)
+    if got != ["int", "obj"]:
+        failing.append(dict(name="known_nextself.next_on_bound_method", n_violations=1, violations=[dict(got=got, expected=["int", "obj"])]))
     print(json.dumps(dict(evaluations=n, failing=failing)))
     return 1 if failing else 0
 
